@@ -529,3 +529,62 @@ func funcAnywhereQuiet(r *an.Run, rel, spec string) *ssa.Function {
 	}
 	return nil
 }
+
+// emptinessTest recognises a comparison that tests whether a string / slice
+// is empty: len(x) == 0, len(x) != 0, len(x) > 0, len(x) < 1, len(x) >= 1,
+// x == "", x != "" (either operand order). It returns x and whether the
+// comparison is true exactly when x is empty.
+func emptinessTest(cmp *ssa.BinOp) (subject ssa.Value, emptyWhenTrue bool, ok bool) {
+	x, y, op := cmp.X, cmp.Y, cmp.Op
+	flip := func(op token.Token) token.Token {
+		switch op {
+		case token.LSS:
+			return token.GTR
+		case token.GTR:
+			return token.LSS
+		case token.LEQ:
+			return token.GEQ
+		case token.GEQ:
+			return token.LEQ
+		}
+		return op
+	}
+	if _, isConst := x.(*ssa.Const); isConst {
+		x, y, op = y, x, flip(op)
+	}
+	if s, isc := an.ConstString(y); isc && s == "" {
+		switch op {
+		case token.EQL:
+			return x, true, true
+		case token.NEQ:
+			return x, false, true
+		}
+		return nil, false, false
+	}
+	lc, isLen := x.(*ssa.Call)
+	if !isLen || !an.IsCallTo(lc, "builtin:len") {
+		return nil, false, false
+	}
+	k, isc := an.ConstInt(y)
+	if !isc {
+		return nil, false, false
+	}
+	arg := lc.Call.Args[0]
+	switch {
+	case k == 0 && (op == token.EQL || op == token.LEQ):
+		return arg, true, true
+	case k == 0 && (op == token.NEQ || op == token.GTR):
+		return arg, false, true
+	case k == 1 && op == token.LSS:
+		return arg, true, true
+	case k == 1 && op == token.GEQ:
+		return arg, false, true
+	}
+	return nil, false, false
+}
+
+// inGroupOf reports whether g belongs to the helper group of the anchored function rel.spec.
+func inGroupOf(r *an.Run, rel, spec string, g *ssa.Function) bool {
+	f := r.P.Func(rel, spec)
+	return f != nil && inGroup(f, g)
+}
